@@ -69,6 +69,41 @@ def dnf_not(a, cap=64):
     return res
 
 
+def _licence_atom(a):
+    if a.startswith('b:') or a.startswith('eq:'):
+        return True
+    if a.startswith('u:'):
+        return False
+    if '(' in a:
+        return (a.endswith('(this)') and a.count('(') == 1) or a.startswith('isnan(') or \
+            a.startswith('std::isnan(') or a.startswith('isfinite(')
+    return True
+
+
+def _merge_compl(s):
+    s = set(s)
+    changed = True
+    while changed and len(s) > 1:
+        changed = False
+        for c in sorted(s, key=len):
+            for l in c:
+                c2 = (c - {l}) | {(l[0], not l[1])}
+                if c2 in s:
+                    s.discard(c)
+                    s.discard(c2)
+                    s.add(c - {l})
+                    changed = True
+                    break
+            if changed:
+                break
+    out = []
+    for c in sorted(s, key=len):
+        if any(o <= c for o in out):
+            continue
+        out.append(c)
+    return out
+
+
 class BV:
     """abstract unsigned value: per bit a DNF over literals (None = unknown)."""
     __slots__ = ('bits',)
@@ -311,6 +346,7 @@ class Flow:
         self.facts_in = {}
         self._elts = {}
         self.mentions = {}     # atom -> frozenset(keys)
+        self.eqs = {}          # equivalence atom -> (atom, atom)
         if fn.cfg:
             self._index()
             self._solve_env()
@@ -686,6 +722,65 @@ class Flow:
             return ['this.*']
         return []
 
+    def _gen(self, alts, e, init):
+        """facts established by an assignment of a boolean: K = constant, or K = R (equivalence)."""
+        fn = self.fn
+        if init is not None:
+            if init['init'] < 0:
+                return alts
+            rhs = init['init']
+            latom = 'this.' + init['m']
+            lmen = frozenset([latom])
+            lt = fn.nodes[rhs].get('t', '')
+        else:
+            n = fn.nodes[e]
+            if n['k'] != 'BinaryOperator' or n.get('op') != '=':
+                return alts
+            lc = self.canon.of(n['ch'][0])
+            if lc is None:
+                return alts
+            latom, lmen = lc
+            rhs = n['ch'][1]
+            lt = n.get('t', '')
+        if lt.replace('const ', '') != 'bool':
+            return alts
+        rn = fn.nodes[fn.strip(rhs)]
+        self.mentions[latom] = lmen
+        if 'cv' in rn or rn['k'] == 'CXXBoolLiteralExpr':
+            v = (int(rn['cv']) != 0) if 'cv' in rn else (rn['v'] == '1')
+            return frozenset(a | frozenset([(latom, v)]) for a in alts)
+        rc = self.canon.of(rhs)
+        if rc is None or rc[0] == latom:
+            return alts
+        ratom, rmen = rc
+        self.mentions[ratom] = rmen
+        eq = 'eq:%s=%s' % (latom, ratom)
+        self.mentions[eq] = lmen | rmen
+        self.eqs[eq] = (latom, ratom)
+        out = set()
+        for a in alts:
+            z = set(a)
+            z.add((eq, True))
+            for pol in (True, False):
+                if (ratom, pol) in a:
+                    z.add((latom, pol))
+            out.add(frozenset(z))
+        return frozenset(out)
+
+    def _eq_close(self, z):
+        if not self.eqs:
+            return z
+        z = set(z)
+        for (a, pol) in list(z):
+            if a in self.eqs and pol:
+                x, y = self.eqs[a]
+                for p2 in (True, False):
+                    if (x, p2) in z:
+                        z.add((y, p2))
+                    if (y, p2) in z:
+                        z.add((x, p2))
+        return frozenset(z)
+
     def _solve_facts(self):
         fn = self.fn
         entry = fn.cfg['entry']
@@ -708,11 +803,13 @@ class Flow:
             for kind, e in self._elts[b]:
                 if kind == 'stmt':
                     alts = self._kill(alts, self.written_keys(e))
+                    alts = self._gen(alts, e, None)
                     self._env_transfer_node(e, env)
                 else:
                     it = fn.d['inits'][e]
                     if it.get('kind') == 'member':
                         alts = self._kill(alts, ['this.' + it['m']])
+                        alts = self._gen(alts, None, it)
                     self._env_transfer_init(e, env)
             blk = fn.blocks[b]
             succ = blk['succ']
@@ -747,7 +844,7 @@ class Flow:
         out = set()
         for a in alts:
             for c in d:
-                z = a | c
+                z = self._eq_close(a | c)
                 if any((l[0], not l[1]) in z for l in z):
                     continue
                 out.add(z)
@@ -766,9 +863,134 @@ class Flow:
                 continue
             out.append(c)
         if len(out) > MAXALT:
+            # first forget the atoms that can never serve as a licence (comparisons of values),
+            # merge what becomes equal, and only then fall back to the common literals
+            proj = set()
+            for c in out:
+                proj.add(frozenset(l for l in c if _licence_atom(l[0])))
+            proj = _merge_compl(proj)
+            if len(proj) <= MAXALT:
+                return frozenset(proj)
             common = frozenset.intersection(*out)
             return frozenset([common])
         return frozenset(out)
+
+    def edge_conds(self, b):
+        """[(succ block, DNF implied by taking that edge or None)] for block b."""
+        c = getattr(self, '_edge_cache', None)
+        if c is None:
+            c = self._edge_cache = {}
+        if b in c:
+            return c[b]
+        fn = self.fn
+        blk = fn.blocks[b]
+        succ = blk['succ']
+        cond = blk.get('cond')
+        tk = blk.get('termk')
+        out = []
+        if cond is not None and len(succ) == 2 and tk not in ('SwitchStmt', 'CXXTryStmt'):
+            env = dict(self.env_in.get(b, {}))
+            for kind, e in self._elts[b]:
+                if kind == 'stmt':
+                    self._env_transfer_node(e, env)
+                else:
+                    self._env_transfer_init(e, env)
+            d, nd = self.cond2(cond, env)
+            for s_, dd in ((succ[0], d), (succ[1], nd)):
+                if s_ is not None:
+                    out.append((s_['b'], dd))
+        else:
+            for s_ in succ:
+                if s_ is not None:
+                    out.append((s_['b'], None))
+        c[b] = out
+        return out
+
+    def assigned_keys(self):
+        c = getattr(self, '_assigned', None)
+        if c is None:
+            c = set()
+            for b, els in self._elts.items():
+                for kind, e in els:
+                    if kind == 'stmt':
+                        c.update(self.written_keys(e))
+                    else:
+                        it = self.fn.d['inits'][e]
+                        if it.get('kind') == 'member':
+                            c.add('this.' + it['m'])
+            self._assigned = c
+        return c
+
+    def stable_from(self, atom, b):
+        """atom cannot change on any path starting at the successors of block b."""
+        if atom.startswith('b:'):
+            return True
+        if atom.startswith('u:') or atom.startswith('eq:'):
+            return False
+        m = self.mentions.get(atom)
+        if m is None:
+            return False
+        wb = self._writes_by_block()
+        reach = self._reach_from(b)
+        for blk in reach:
+            for k in wb.get(blk, ()):
+                for mk in m:
+                    if mk == k or (mk == 'this.*' and k.startswith('this.')) or (k == 'this.*' and mk.startswith('this.')):
+                        return False
+        return True
+
+    def _writes_by_block(self):
+        c = getattr(self, '_wbb', None)
+        if c is None:
+            c = {}
+            for b, els in self._elts.items():
+                ks = set()
+                for kind, e in els:
+                    if kind == 'stmt':
+                        ks.update(self.written_keys(e))
+                    else:
+                        it = self.fn.d['inits'][e]
+                        if it.get('kind') == 'member':
+                            ks.add('this.' + it['m'])
+                c[b] = ks
+            self._wbb = c
+        return c
+
+    def _reach_from(self, b):
+        c = getattr(self, '_reach', None)
+        if c is None:
+            c = self._reach = {}
+        if b in c:
+            return c[b]
+        seen = set()
+        st = list(self._succs(b))
+        while st:
+            x = st.pop()
+            if x in seen:
+                continue
+            seen.add(x)
+            st.extend(self._succs(x))
+        c[b] = seen
+        return seen
+
+    def stable_atom(self, atom):
+        """an atom whose truth cannot change during the function."""
+        if atom.startswith('b:'):
+            return True
+        if atom.startswith('u:'):
+            return False
+        m = self.mentions.get(atom)
+        if m is None:
+            return False
+        asg = self.assigned_keys()
+        for k in m:
+            if k in asg:
+                return False
+            if k == 'this.*' and any(a.startswith('this.') for a in asg):
+                return False
+            if k.startswith('this.') and 'this.*' in asg:
+                return False
+        return True
 
     def facts_at(self, nid):
         """alternatives holding just before node nid is evaluated."""
@@ -782,10 +1004,12 @@ class Flow:
         for kind, e in self._elts[b][:idx]:
             if kind == 'stmt':
                 alts = self._kill(alts, self.written_keys(e))
+                alts = self._gen(alts, e, None)
             else:
                 it = self.fn.d['inits'][e]
                 if it.get('kind') == 'member':
                     alts = self._kill(alts, ['this.' + it['m']])
+                    alts = self._gen(alts, None, it)
         return alts
 
     def reachable_node(self, nid):
